@@ -1,8 +1,9 @@
-(* Tie B: the definitions regenerated from /repo's Python source on this run
-   (Gen/*.v) are equal to the hand models the proofs are about.  The tactic is
+(* Tie B: the scalar reducers regenerated from /repo's Python source on this run
+   (Gen/ScalarFuncsGen.v, Gen/ReductionOpsGen.v) are equal to the hand models the proofs are about.  The tables and statement
+   lists are tied in their own files (Proofs/Tie*.v), so that a change is reported by the properties it concerns only.  The tactic is
    shape-insensitive: unfold, case-split every boolean, reflexivity / lia. *)
 From Coq Require Import List ZArith Lia Bool String.
-From GL Require Import Model.Dom Model.Scalar Model.Reduce Model.Nanops Model.GroupByApi Model.Ema Model.Factorize Model.Moments Model.Rolling Model.Margins Gen.ScalarFuncsGen Gen.ReductionOpsGen Gen.TablesGen Gen.FactorizeGen.
+From GL Require Import Model.Dom Model.Scalar Gen.ScalarFuncsGen Gen.ReductionOpsGen.
 Open Scope Z_scope.
 
 Ltac split_ifs :=
@@ -59,33 +60,3 @@ Proof. unfold b_last_skipna, op_last_skipna; tie. Qed.
 Lemma tie_op_sum_square x y : b_sum_square o x y = op_sum_square o x y.
 Proof. unfold b_sum_square, op_sum_square; tie. Qed.
 End Tie.
-
-(* no reducer appeared or disappeared, and every wrapper passes the reducer the model says *)
-Lemma tie_scalar_func_names : gen_scalar_func_names = scalar_func_names.
-Proof. reflexivity. Qed.
-Lemma tie_kernel_reducers : gen_kernel_reducers = kernel_reducers.
-Proof. reflexivity. Qed.
-Lemma tie_direct_reducers : gen_direct_reducers = direct_reducers.
-Proof. reflexivity. Qed.
-Lemma tie_nanops_dispatch : gen_nanops_dispatch = nanops_dispatch.
-Proof. reflexivity. Qed.
-Lemma tie_core_merge_sums : gen_core_merge_sums = core_merge_sums.
-Proof. reflexivity. Qed.
-Lemma tie_ema_formulas : gen_ema_formulas = ema_formulas.
-Proof. reflexivity. Qed.
-Lemma tie_build_target_rule : gen_build_target_rule = build_target_rule.
-Proof. reflexivity. Qed.
-Lemma tie_rolling_dispatch : gen_rolling_dispatch = rolling_dispatch.
-Proof. reflexivity. Qed.
-Lemma tie_moment_formulas : gen_moment_formulas = moment_formulas.
-Proof. reflexivity. Qed.
-Lemma tie_rolling_sum_updates : gen_rolling_sum_updates = rolling_sum_updates.
-Proof. reflexivity. Qed.
-Lemma tie_add_row_margin : gen_add_row_margin = add_row_margin_source.
-Proof. reflexivity. Qed.
-
-(* the mixed-radix kernel regenerated from factorization.py is the model the C02 theorems are about *)
-Lemma tie_wcs_loop cw : forall out, g_wcs_loop cw out = wcs cw out.
-Proof. induction cw as [|[c w] t IH]; intros out; cbn [g_wcs_loop wcs]; auto; try (destruct (c =? -1); auto). Qed.
-Lemma tie_weight_code_sum codes weights : g_weight_code_sum codes weights = weight_code_sum codes weights.
-Proof. unfold g_weight_code_sum, weight_code_sum. rewrite tie_wcs_loop. reflexivity. Qed.
